@@ -157,7 +157,10 @@ def main(tier: str) -> int:
         if verdict == "error":
             rep.unknown(f"cosim-inputs{a}", f"nnvg failed: {detail}")
         else:
-            rep.counterexample(f"cosim-inputs-{verdict}-{a[0]}", f"real nnvg {flags}: {verdict}: {detail}", str(rd), True)
+            key = f"cosim-inputs-{verdict}-{a[0]}"
+            if verdict == "unlisted-input" and a[0] == "html" and all(not m.endswith((".j2", ".dsdl")) for m in detail["read_but_not_listed"]):
+                key = "html-included-assets-not-listed"      # listed finding: only the non-template files html templates {% include %}
+            rep.counterexample(key, f"real nnvg {flags}: {verdict}: {detail}", str(rd), True)
     if iok < len(icombos) // 2:
         rep.unknown("cosim-inputs", f"only {iok} of {len(icombos)} input-listing co-simulations ran")
     rep.extra["input_listing_cosim"] = dict(runs=len(icombos), ok=iok)
